@@ -1,1 +1,4 @@
 global size_of usize == 8;   // assumption: 64-bit target
+// propositions used only by the vacuity canaries (a second assembly in which `assert(vx_canary(k))` is placed at every function entry
+// and loop body; each must FAIL): nothing is known about them
+pub uninterp spec fn vx_canary(k: int) -> bool;
